@@ -123,6 +123,26 @@ Theorem C44_append_exact :
 Proof. exact append_exact. Qed.
 Print Assumptions C44_append_exact.
 
+(* Reading "names a field" as "is the text-format name (TextName) of a field": REFUTED for the
+   code (known finding F16): a GroupKind field that is not group-like (editions DELIMITED
+   field whose name is not the lower-cased message name) cannot be named by any path. *)
+Theorem C44_valid_paths_text_name_refuted :
+  exists sc root p fd, names_text sc root p fd /\ nodot p /\ path_valid sc root p = false.
+Proof. exact valid_paths_text_name_refuted. Qed.
+Print Assumptions C44_valid_paths_text_name_refuted.
+
+(* ... and outside that class (every GroupKind field group-like; field names and text names
+   unique per message, as descriptor validation guarantees) the code's rule [names] of
+   C44_valid_paths_exact IS "segment = text-format name of a field" *)
+Theorem C44_valid_paths_text_name_except_F16 :
+  forall sc md seg fd,
+  (forall m f, In m sc -> In f (m_fields m) ->
+     match f_kind f with KGroup r => group_like sc f = true /\ r < length sc | _ => True end)%nat ->
+  (forall m, In m sc -> NoDup (map f_name (m_fields m)) /\ NoDup (map (text_name sc) (m_fields m))) ->
+  (names sc md seg fd <-> names_text sc md seg fd).
+Proof. exact names_text_except_F16. Qed.
+Print Assumptions C44_valid_paths_text_name_except_F16.
+
 (* ---- non-vacuity ---- *)
 Definition bs (s : list byte) := s.
 Local Notation "'a'" := "a"%byte. Local Notation "'b'" := "b"%byte. Local Notation "'c'" := "c"%byte.
